@@ -22,6 +22,12 @@ structure Good (f : FdtRecv σ) : Prop where
   hasMeta : f.st = .complete → f.hasMeta = true
   exp : ∀ e, f.expires = some e → 0 ≤ e ∧ e < 4294967296000000
 
+theorem good_noteFti (f : FdtRecv σ) (v : Option Fti) (hg : Good f) : Good (f.noteFti v) := by
+  unfold FdtRecv.noteFti
+  split
+  · exact ⟨hg.id, hg.late, hg.early, hg.hasMeta, hg.exp⟩
+  · exact hg
+
 theorem serverTime_total (f : FdtRecv σ) (now : Int) (hg : Good f) (hn : TimeSane now) :
     ∃ t, f.serverTime now = .ok t ∧ -4611686018427387904 ≤ t ∧ t < 4611686018427387904 + 4294967296000000 := by
   unfold TimeSane at hn
@@ -356,7 +362,7 @@ theorem pushFdtObjP_total (I : ObjIface σ) (hI : I.CompleteSound) (s : State σ
     simp only []
     split
     · exact ⟨_, rfl⟩
-    · have he := fdtEntry_all I Good s id (good_new I id _ (hp.1 id hid)) hall
+    · have he := fdtEntry_all I Good s id p good_noteFti (good_new I id _ (hp.1 id hid)) hall
       split
       · exact ⟨_, rfl⟩
       · have hgp : Good ((fdtEntry I s id p).2.push I p now ans) := good_push I hI _ p now ans he.2.1 hp hn
@@ -378,6 +384,11 @@ theorem pushFdtObjP_total (I : ObjIface σ) (hI : I.CompleteSound) (s : State σ
           · subst hkf; exact hgf'
           · exact he.1.2 kf hkf
         · exact alookup_ainsert_self _ _ _
+
+theorem pushFdtObj_total (I : ObjIface σ) (hI : I.CompleteSound) (s : State σ) (p : Pkt) (now : Int)
+    (ans : FdtAns) (hn : TimeSane now) (hp : p.WF) (hall : AllFdt Good s) :
+    ∃ x, pushFdtObj I s p now ans = .ok x :=
+  pushFdtObjP_total I hI (dropConflict s p) p now ans hn hp (dropConflict_all Good s p hall).1
 
 theorem updateExpiredAll_total (now : Int) (hn : TimeSane now) :
     ∀ (l : List (Nat × FdtRecv σ)), (∀ kf ∈ l, Good kf.2) → ∃ l', updateExpiredAll now l = .ok l' := by
@@ -436,7 +447,7 @@ theorem step_total (I : ObjIface σ) (hI : I.CompleteSound) (s : State σ) (op :
 theorem step_good (I : ObjIface σ) (hI : I.CompleteSound) (s s' : State σ) (op : Op) (r : Res)
     (evs : List Ev) (hop : OpOK op) (h : step I s op = .ok (s', r, evs)) (hall : AllFdt Good s) :
     AllFdt Good s' := by
-  refine (step_all I Good s s' op r evs ?_ ?_ ?_ h hall).1
+  refine (step_all I Good s s' op r evs good_noteFti ?_ ?_ ?_ h hall).1
   · intro p now ans id hop' hid
     subst hop'
     exact good_new I id _ ((hop.2 p rfl).1 id hid)
